@@ -110,6 +110,15 @@ func judge(c Case, w *vkit.W) {
 			w.Fail(c, "json-round-trip", fmt.Sprintf("Size(%d): MarshalJSON = %q, UnmarshalJSON -> %d, %v (switches %03b)", c.S, js, uint64(back), err, c.Switches))
 		}
 		w.RetainBytes(c, "MarshalJSON", js, string(js))
+		if c.S%4 == 1 || c.S < 64 || c.Containers { // the returned bytes belong to the caller
+			if js2, err := s.MarshalJSON(); err == nil {
+				w.Owned(c, "MarshalJSON", js2, string(js), s.MarshalJSON)
+			}
+			if t2, err := s.MarshalText(); err == nil {
+				want := string(t2)
+				w.Owned(c, "MarshalText", t2, want, s.MarshalText)
+			}
+		}
 		switch {
 		case len(js) > 0 && js[0] == '{':
 			w.Class("json_form_object")
